@@ -8,6 +8,8 @@ CONSTANTS
   Interval = 4
   Deltas = {1, 2, 4, 16}
   MaxChanges = 2
+  MaxCancels = 1
+  SkipCancelled = TRUE
   Timely = TRUE
   StaleFullBucket = TRUE
   StaleRateOnChange = FALSE
